@@ -78,6 +78,7 @@ class Picture:
         self.nodes = {}
         self.fw = []  # (type, ver) with an image
         self.images = {}  # (type, ver) -> image spec
+        self.desired = {}  # (node, child) -> value types the controller asked to change
         self.updating = set()
 
     def known_nodes(self):
@@ -135,6 +136,9 @@ def valid_frame(draw, pic, kinds=None):
         cid = _pick_child(draw, pic, nid)
         top = T.MAX_SUB[version][T.SET]
         reported = sorted(pic.nodes.get(nid, {}).get(cid, set()))
+        if kind == "req":
+            # requests also go for value types the controller has asked to change (pending desired values)
+            reported = sorted(set(reported) | {v for v in pic.desired.get((nid, cid), ()) if v <= top})
         if reported and draw(st.integers(0, 9)) < 6:
             sub = draw(st.sampled_from(reported))
         else:
@@ -313,6 +317,7 @@ def controller_set(draw, pic, wire_carriable=True, wild=False):
         value = draw(free_text if wire_carriable else st.text(st.characters(exclude_categories=["Cs"]), max_size=8))
     if draw(st.integers(0, 9)) == 0 and V._CANON_INT.match(value) and len(value) < 6:  # pylint: disable=protected-access
         value = int(value)  # numbers are allowed as values
+    pic.desired.setdefault((nid, cid), set()).add(vt)
     op = {"op": "set", "n": nid, "c": cid, "vt": vt, "value": value}
     if draw(st.integers(0, 5)) == 0:
         op["ack"] = draw(st.sampled_from([0, 1, 1, 2]))
@@ -375,7 +380,7 @@ def histories(draw, versions=T.VERSIONS, max_ops=30, invalid=True, controller=Tr
             if wake is not None and draw(st.booleans()):
                 ops.append({"op": "line", "text": frame((nid, 255, T.INTERNAL, 0, wake, "5"))})
     weights = dict(valid=62, near=10 if invalid else 0, raw=6 if invalid else 0, set=12 if controller else 0,
-                   fw=4 if ota else 0, metric=2, cb_raise=2 if cb_raise else 0, clock=2, wild=0, save=0)
+                   fw=4 if ota else 0, metric=2, cb_raise=2 if cb_raise else 0, clock=2, wild=0, save=0, desire=3 if controller else 0, race=0)
     weights.update(op_weights or {})
     table = [k for k, w in weights.items() for _ in range(w)]
     for _ in range(n_ops):
@@ -397,6 +402,32 @@ def histories(draw, versions=T.VERSIONS, max_ops=30, invalid=True, controller=Tr
             ops.append(draw(controller_set(pic, wire_carriable, wild_vt)))
         elif roll == "fw":
             ops.append(draw(fw_update(pic)))
+        elif roll == "desire":
+            # template: the controller asks to change a value, the node requests that value type, then wakes up
+            cands = [(n, c) for n in pic.known_nodes() for c in pic.known_children(n)]
+            if cands:
+                nid, cid = draw(st.sampled_from(cands))
+                vt = draw(st.sampled_from([0, 1, 24, 25, 28, 32, 2, 3]))
+                value = draw(conforming(T.payload_rule(version, T.SET, vt)))
+                ops.append({"op": "set", "n": nid, "c": cid, "vt": vt, "value": value})
+                pic.desired.setdefault((nid, cid), set()).add(vt)
+                if draw(st.integers(0, 3)) > 0:
+                    ops.append({"op": "line", "text": frame((nid, cid, T.REQ, draw(st.integers(0, 1)), vt, ""))})
+                wake = T.wake_sub(version)
+                if wake is not None and draw(st.booleans()):
+                    ops.append({"op": "line", "text": frame((nid, 255, T.INTERNAL, 0, wake, "7"))})
+        elif roll == "race":
+            # template: a node with a pending desired value wakes up, and while its burst is being
+            # queued the controller sets another value of the same child (see C01 race_set)
+            cands = [(n, c) for n in pic.known_nodes() for c in pic.known_children(n)]
+            wake = T.wake_sub(version)
+            if cands and wake is not None:
+                nid, cid = draw(st.sampled_from(cands))
+                wline = frame((nid, 255, T.INTERNAL, 0, wake, "7"))
+                ops.append({"op": "line", "text": frame((nid, cid, T.SET, 0, 24, "r1"))})
+                ops.append({"op": "line", "text": wline})
+                ops.append({"op": "set", "n": nid, "c": cid, "vt": 24, "value": "r2"})
+                ops.append({"op": "race_set", "n": nid, "c": cid, "vt": draw(st.sampled_from([25, 26, 0, 24])), "value": "r3", "at": draw(st.integers(0, 2)), "then": wline})
         elif roll == "save":
             ops.append({"op": "save"})
         elif roll == "metric":
